@@ -313,6 +313,10 @@ func (v *Verifier) VerifyFunc(key string) (res *FuncResult) {
 	for _, cl := range fc.Of("requires") {
 		st.Assume(v.evalBool(env, cl.E))
 	}
+	for _, cl := range fc.Of("assume") {
+		x.note("ASSUMED in contract of " + key + ": " + cl.Text)
+		st.Assume(v.evalBool(env, cl.E))
+	}
 	if fn.Synthetic == "package initializer" {
 		// the initializer body runs once: its guard is false at entry
 		if g, ok := fn.Pkg.Members["init$guard"].(*ssa.Global); ok {
@@ -347,6 +351,18 @@ func (v *Verifier) VerifyFunc(key string) (res *FuncResult) {
 			}
 		}
 	}
+	for _, cl := range fc.Of("ghost") {
+		if strings.HasPrefix(cl.Text, "consumes-wg ") {
+			e, err := ParseExpr(strings.TrimPrefix(cl.Text, "consumes-wg "))
+			if err != nil {
+				panic(unsupported{err.Error()})
+			}
+			r := x.refOf(v.eval(env, e))
+			mine := st.ghostArr("wgmine", SInt)
+			st.setGhostArr("wgmine", Store(mine, r, IntLit(1)))
+			st.Assume(Ge(Select(st.ghostArr("wg", SInt), r), IntLit(1)))
+		}
+	}
 	x.Entry.OldHeap = copyHeap(st.Heap)
 	// cover: the precondition must be satisfiable
 	x.Obls = append(x.Obls, &Obligation{Name: key + "#cover:requires", Kind: "cover", Func: key, Assumes: st.PC[:len(st.PC):len(st.PC)], Goal: False, Pos: res.Pos})
@@ -378,8 +394,17 @@ func (v *Verifier) evalLockRef(env *Env, x *Exec, st *State, e *Expr) *Val {
 }
 
 // prescan records the types of labelled callee arguments/results and channel field keys.
-func (x *Exec) prescan() {
-	for _, b := range x.Fn.Blocks {
+func (x *Exec) prescan() { x.prescanFn(x.Fn, 0, map[*ssa.Function]bool{}) }
+
+func (x *Exec) prescanFn(fn *ssa.Function, depth int, seen map[*ssa.Function]bool) {
+	if seen[fn] || depth > 4 {
+		return
+	}
+	seen[fn] = true
+	for _, af := range fn.AnonFuncs {
+		x.prescanFn(af, depth+1, seen)
+	}
+	for _, b := range fn.Blocks {
 		for _, in := range b.Instrs {
 			var c *ssa.CallCommon
 			switch i := in.(type) {
@@ -400,6 +425,11 @@ func (x *Exec) prescan() {
 			}
 			if c == nil {
 				continue
+			}
+			if sc := c.StaticCallee(); sc != nil && sc.Blocks != nil && sc.Package() != nil && strings.HasPrefix(sc.Package().Pkg.Path(), modulePath) {
+				if _, has := x.V.C.Funcs[x.V.P.FuncKey(sc)]; !has {
+					x.prescanFn(sc, depth+1, seen)
+				}
 			}
 			method := ""
 			if c.IsInvoke() {
